@@ -1,4 +1,5 @@
 import sys
+# unmarshalMap *map[K]V: null keeps the previous map
 p=sys.argv[1]+'/marshal.go'; s=open(p).read()
 old="""	if data == nil {
 		rv.Set(reflect.Zero(t))
